@@ -240,7 +240,9 @@ def handle (toks : List String) (impl : String) : Verdict :=
             | _ => some "unreadable difference" }
       else if op = "text" then
         let flags := s!"{showBool (Rpki.ResSetOps.isEmpty a)} {showBool (!a.asn.isEmpty)}{showBool (!a.v4.isEmpty)}{showBool (!a.v6.isEmpty)}"
-        { model := some s!"{toHex ((Rpki.ResSetOps.display a).map UInt8.ofNat)} rt-same serde-same {flags}",
+        -- the model reads its own three text forms back with its `from_strs`
+        let rt := if Rpki.ResSetOps.fromStrs (Rpki.ResText.fmtAs a.asn) (Rpki.ProvMsg.fmtV4 a.v4) (Rpki.ProvMsg.fmtV6 a.v6) = some a then "rt-same" else "rt-differs"
+        { model := some s!"{toHex ((Rpki.ResSetOps.display a).map UInt8.ofNat)} {rt} serde-same {flags}",
           oracle := match impl.splitOn " " with
             | [_, rt, sj, _, _] => if rt ≠ "rt-same" then some s!"the text forms of a resource set do not parse back to it ({rt})"
                                 else if sj ≠ "serde-same" then some s!"the serde form of a resource set does not parse back to it ({sj})" else none
